@@ -7,6 +7,7 @@ import (
 	"fmt"
 	"os"
 	"path/filepath"
+	"runtime"
 	"sync"
 	"sync/atomic"
 	"time"
@@ -724,8 +725,84 @@ func c18histChild(raw json.RawMessage, scratch string) {
 		// ring-crossing writes: interval oracle with concurrent DataRange/ReadAt observers
 		runCrossing(r, hc, scratch, rng)
 		runMultiWriter(r, hc, rng)
+		runTailers(r, hc, rng)
 	}
 	wk.ChildDone(r)
+}
+
+type tailer struct {
+	pos  uint64 // bytes received so far (atomic)
+	done chan struct{}
+	err  error
+}
+
+//go:noinline
+func c18Tail0(bl *backlog.Backlog, t *tailer, total uint64) { tailLoop(bl, t, total) }
+
+//go:noinline
+func c18Tail1(bl *backlog.Backlog, t *tailer, total uint64) { tailLoop(bl, t, total) }
+
+//go:noinline
+func c18Tail2(bl *backlog.Backlog, t *tailer, total uint64) { tailLoop(bl, t, total) }
+
+func tailLoop(bl *backlog.Backlog, t *tailer, total uint64) {
+	defer close(t.done)
+	buf := make([]byte, 512)
+	for pos := uint64(0); pos < total; {
+		n, err := bl.ReadAt(buf, pos)
+		if err != nil {
+			t.err = err
+			return
+		}
+		pos += uint64(n)
+		atomic.StoreUint64(&t.pos, pos)
+	}
+}
+
+// runTailers: several readers follow the write position at the same time (each blocks whenever it has caught up) while
+// the writer keeps appending small chunks. "Waits while o equals the write position" - and only then: once the writer
+// is done, a reader that is still parked below the write position can never be woken again.
+func runTailers(r *res.R, hc *histCase, rng *prng.R) {
+	if hc.Backend == "file" {
+		return
+	}
+	bl := backlog.NewSize(1 << 20) // nothing is overwritten: every reader can reach the end
+	defer bl.Close()
+	chunks := 400
+	sizes := make([]int, chunks)
+	var total uint64
+	for i := range sizes {
+		sizes[i] = rng.Pick(1, 3, 8, 64, 300)
+		total += uint64(sizes[i])
+	}
+	ts := []*tailer{{done: make(chan struct{})}, {done: make(chan struct{})}, {done: make(chan struct{})}}
+	go c18Tail0(bl, ts[0], total)
+	go c18Tail1(bl, ts[1], total)
+	go c18Tail2(bl, ts[2], total)
+	payload := make([]byte, 300)
+	for i, n := range sizes {
+		bl.Write(payload[:n])
+		if i%7 == 3 {
+			runtime.Gosched()
+		}
+	}
+	r.Count("tailing_reader_runs", 1)
+	for k, t := range ts {
+		marker := fmt.Sprintf("ppkg.c18Tail%d", k)
+		finished, parked := gstate.Settle(t.done, marker, 20*time.Second)
+		switch {
+		case finished && t.err != nil:
+			r.Violation("C18|mem|tailing-readers|outcome=read-error", fmt.Sprintf("reader %d of 3 tailing readers got %v at offset %d although nothing was overwritten (capacity 1 MiB, %d bytes written)", k, t.err, atomic.LoadUint64(&t.pos), total), hc)
+			return
+		case finished:
+		case parked:
+			r.Violation("C18|mem|tailing-readers|outcome=parked-below-write-position", fmt.Sprintf("reader %d of 3 tailing readers is parked in sync.Cond.Wait at offset %d although the write position is %d and the writer has finished: no later broadcast can wake it", k, atomic.LoadUint64(&t.pos), total), hc)
+			return
+		default:
+			r.Inconcl("tailing readers: a reader neither finished nor parked within the watchdog")
+			return
+		}
+	}
 }
 
 // runMultiWriter: several goroutines write at the same time, one of them with payloads that regularly straddle the
@@ -967,5 +1044,6 @@ func c18(c *wk.Ctx) {
 	r.Floor("ring_laps", 500)
 	r.Floor("history_ops", 2000)
 	r.Floor("concurrent_writer_rounds_straddling_ring_end", 5000)
+	r.Floor("tailing_reader_runs", 100)
 	r.Assume("waiting/woken read from runtime.Stack goroutine states; porcupine model state = write position; content is position-coded so 'other bytes' is decidable per byte")
 }
